@@ -9,6 +9,7 @@ mod c10_fragment;
 mod c11_reassembly;
 mod c12_modcmp;
 mod c15_ipgen;
+mod c15_dhcp;
 mod codecs;
 mod sim;
 mod c05_link;
@@ -55,8 +56,8 @@ fn parts_for(id: &str) -> Option<Vec<Part>> {
         "C17" => vec![part(tcb_checks::HostileSegments, 60_000, 4_000_000)],
         "C13" => vec![part(c13_barrier::BarrierAndStatus, 6_000, 300_000)],
         "C14" => vec![part(codecs::DecodersNoPanic, 1_000_000, 20_000_000), part(ndl::NdlNoPanic, 100_000, 3_000_000), part(c14_frames::MalformedFrames, 3_000, 200_000)],
-        "C19" => vec![part(ndl::NdlRoundTrip, 40_000, 2_000_000)],
-        "C15" => vec![part(c15_ipgen::IpGenHistories, 300_000, 6_000_000)],
+        "C19" => vec![part(ndl::NdlRoundTrip, 40_000, 2_000_000), part(ndl::NdlRun, 2_000, 100_000)],
+        "C15" => vec![part(c15_ipgen::IpGenHistories, 300_000, 6_000_000), part(c15_dhcp::DhcpLeases, 5_000, 200_000)],
         "C18" => vec![part(codecs::Codecs, 400_000, 8_000_000), part(codecs::CorruptionRejected, 400_000, 8_000_000)],
         "C20" => vec![part(c20_dns::DnsResolution, 20_000, 600_000)],
         _ => return None,
